@@ -281,19 +281,37 @@ def grid_job(args):
 
 
 def reject_job(args):
+    """construction-time verdict per spec, shape and *carrier* of the value: a plain signal, a user-defined
+    value-castable whose shape is a plain Shape (documented to format like its value), the spec nested or inline"""
     seed, specs, shapes = args
-    from amaranth.hdl import Signal, Format, signed, unsigned
+    from amaranth.hdl import Signal, Format, ValueCastable, signed, unsigned
+
+    class Wrapped(ValueCastable):
+        def __init__(self, v):
+            self.v = v
+
+        def shape(self):
+            return self.v.shape()
+
+        def as_value(self):
+            return self.v
     out = []
     for spec in specs:
+        inline_ok = "{" not in spec and "}" not in spec and "!" not in spec and ":" not in spec
         for (w, sg) in shapes:
             sig = Signal(signed(w) if sg else unsigned(w))
-            try:
-                Format("{:{}}", sig, spec)
-                out.append((spec, w, sg, "ok"))
-            except ValueError as e:
-                out.append((spec, w, sg, reject_reason(e)))
-            except Exception as e:
-                out.append((spec, w, sg, "raises:" + errkind(e)))
+            carriers = [("sig", lambda: Format("{:{}}", sig, spec)),
+                        ("castable", lambda: Format("{:{}}", Wrapped(sig), spec))]
+            if inline_ok:
+                carriers.append(("castable_inline", lambda: Format("{:" + spec + "}", Wrapped(sig))))
+            for cname, mk in carriers:
+                try:
+                    mk()
+                    out.append((spec, w, sg, "ok", cname))
+                except ValueError as e:
+                    out.append((spec, w, sg, reject_reason(e), cname))
+                except Exception as e:
+                    out.append((spec, w, sg, "raises:" + errkind(e), cname))
     return out
 
 
@@ -585,9 +603,27 @@ def collect_fx(items, acc):
     return acc
 
 
+def strip_sync_assigns(items):
+    """the same program without its synchronous assignments (a pure monitor: only Print / Assert / Assume / Cover
+    remain in the domain)"""
+    out = []
+    for it in items:
+        if it[0] == "assign":
+            if it[1] != "sync":
+                out.append(it)
+        elif it[0] == "if":
+            out.append(("if", [(c, strip_sync_assigns(b)) for c, b in it[1]],
+                        strip_sync_assigns(it[2]) if it[2] is not None else None))
+        elif it[0] == "switch":
+            out.append(("switch", it[1], [(p, strip_sync_assigns(b)) for p, b in it[2]]))
+        else:
+            out.append(it)
+    return out
+
+
 def flow_job(args):
     seed, n_progs, depth, n_events = args
-    from amaranth.hdl import Signal, Module, Fragment, ClockDomain, Cat, unsigned
+    from amaranth.hdl import Signal, Module, Fragment, ClockDomain, Cat, unsigned, EnableInserter, ResetInserter
     from amaranth.sim import Simulator
     from .. import gen_expr, gen_prog
     rng = random.Random(seed)
@@ -624,23 +660,46 @@ def flow_job(args):
             continue
         edge = rng.choice(["pos", "neg"])
         rmode = rng.choice(["norst", "rst", "async"])
+        # control wrappers around the module: an EnableInserter gates everything in the domain, effects included
+        # (the program as written then sits under `If(en)`); a ResetInserter does not touch effects
+        wrap_en = wrap_rst = None
+        if rng.random() < 0.35:
+            wrap_en = Signal(1, name="en")
+            inputs.append(wrap_en); allsigs.append(wrap_en)
+            if rng.random() < 0.5:
+                items = strip_sync_assigns(items)
+            hist["flow_wrapper:enable"] = hist.get("flow_wrapper:enable", 0) + 1
+        if rng.random() < 0.15:
+            wrap_rst = Signal(1, name="srst")
+            inputs.append(wrap_rst); allsigs.append(wrap_rst)
+            items = strip_sync_assigns(items)       # (so that the inserted reset has nothing to reset)
+            hist["flow_wrapper:reset"] = hist.get("flow_wrapper:reset", 0) + 1
+
+        def wrapped(mod):
+            if wrap_en is not None:
+                mod = EnableInserter({"sync": wrap_en})(mod)
+            if wrap_rst is not None:
+                mod = ResetInserter({"sync": wrap_rst})(mod)
+            return mod
         sigidx = {id(s): i for i, s in enumerate(allsigs)}
         case = {"seed": seed, "job_args": list(args), "sigs": [(s.name, len(s), s.shape().signed, s.init) for s in allsigs],
                 "edge": edge, "rmode": rmode}
         try:
             case["prog"] = ser_prog20(items, sigidx)
+            if wrap_en is not None:
+                case["prog"] = f"(if ({ser_value(wrap_en, sigidx)} {case['prog']}))"
             m = Module()
             cd = ClockDomain("sync", clk_edge=edge, reset_less=(rmode == "norst"), async_reset=(rmode == "async"))
             m.domains.sync = cd
             build20(m, items)
             ids = collect_fx(items, {})
-            frag = Fragment.get(m, None)
+            frag = Fragment.get(wrapped(m), None)
             case["stmts"] = ser_stmts20(frag.statements.get("sync", []), sigidx, ids)
             m2 = Module()
             cd2 = ClockDomain("sync", clk_edge=edge, reset_less=(rmode == "norst"), async_reset=(rmode == "async"))
             m2.domains.sync = cd2
             build20(m2, items)
-            sim = Simulator(m2)
+            sim = Simulator(wrapped(m2))
             events = []
             buf = io.StringIO()
             state = {"clk": 0, "rst": 0, "n": -1}
@@ -836,23 +895,24 @@ def run_reject(chk, quick):
     jobs = [(rng.getrandbits(48), specs[i:i + 1500], shapes) for i in range(0, len(specs), 1500)]
     with ProcessPoolExecutor(max_workers=min(16, os.cpu_count() or 4)) as ex:
         for res in ex.map(reject_job, jobs):
-            reqs = [f"(fmt {hx(spec)} {w} {'s' if sg else 'u'})" for spec, w, sg, _r in res]
+            reqs = [f"(fmt {hx(spec)} {w} {'s' if sg else 'u'})" for spec, w, sg, _r, _c in res]
             resps = chk.driver.ask(reqs)
-            for (spec, w, sg, impl), resp in zip(res, resps):
+            for (spec, w, sg, impl, carrier), resp in zip(res, resps):
                 chk.count(1)
+                chk.hist("reject_carrier", carrier)
                 head = common.kv(resp)
-                base = {"stream": "reject", "spec": spec, "shape": [w, sg]}
+                base = {"stream": "reject", "spec": spec, "shape": [w, sg], "carrier": carrier}
                 if not resp.startswith("fmt "):
                     chk.not_shown("driver could not evaluate a reject case", dict(base, response=resp[:200]))
                     continue
                 chk.hist("reject_reason", head["rej"])
                 if impl != head["rej"]:
                     if (impl == "ok") != (head["rej"] == "ok"):
-                        chk.violation(f"Format with spec {spec!r} on shape ({w},{'s' if sg else 'u'}): implementation says {impl}, the grammar says {head['rej']}",
+                        chk.violation(f"Format with spec {spec!r} on a {carrier} of shape ({w},{'s' if sg else 'u'}): implementation says {impl}, the grammar says {head['rej']}",
                                       dict(base, impl=impl, expected=head["rej"], classes=[]))
                     else:
                         chk.not_shown("a spec is rejected for another reason than the model predicts", dict(base, impl=impl, model=head["rej"]))
-                chk.distinct(("rej", spec, w, sg), head["rej"] != "invalid")
+                chk.distinct(("rej", spec, w, sg, carrier), head["rej"] != "invalid")
 
 
 def run_chunks(chk, quick):
@@ -1085,7 +1145,8 @@ def replay(chk, path):
         from amaranth.hdl import signed, unsigned
         spec, (w, sg) = rep["spec"], rep["shape"]
         shape = signed(w) if sg else unsigned(w)
-        impl_rej = reject_job((0, [spec], [(w, sg)]))[0][3]
+        rows = reject_job((0, [spec], [(w, sg)]))
+        impl_rej = next((r[3] for r in rows if r[4] == rep.get("carrier", "sig")), rows[0][3])
         v = rep.get("value")
         resp = chk.driver.ask([f"(fmt {hx(spec)} {w} {'s' if sg else 'u'}" + (f" {v}" if v is not None else "") + ")"])[0]
         parts = resp.split(" ; ")
